@@ -61,6 +61,13 @@ FEATURES = {
     "service_only": "message M { int32 x = 1; } service S { rpc U(M) returns (M); rpc SS(stream M) returns (stream M); }",
     "recursive_only": "message M { M child = 1; }",
     "deprecated_only": "message M { option deprecated = true; int32 x = 1 [deprecated = true]; }",
+    # a field named like a builtin scalar type, declared FIRST, then fields of that scalar in every label: the order
+    # for which the plugin's builtins.<type> qualification is meant to work under every option combination
+    "builtin_int": "message M { int64 int = 1; repeated int32 a = 2; optional int64 b = 3; map<string, sint32> c = 4; oneof g { uint32 d = 5; string e = 6; } }",
+    "builtin_str": "message M { string str = 1; repeated string a = 2; optional string b = 3; map<string, string> c = 4; oneof g { string d = 5; int32 e = 6; } }",
+    "builtin_float": "message M { double float = 1; repeated float a = 2; optional double b = 3; map<int32, float> c = 4; oneof g { float d = 5; int32 e = 6; } }",
+    "builtin_bool": "message M { bool bool = 1; repeated bool a = 2; optional bool b = 3; map<string, bool> c = 4; oneof g { bool d = 5; int32 e = 6; } }",
+    "builtin_bytes": "message M { bytes bytes = 1; repeated bytes a = 2; optional bytes b = 3; map<string, bytes> c = 4; oneof g { bytes d = 5; int32 e = 6; } }",
 }
 
 
